@@ -704,3 +704,45 @@ Definition fin20 (s : s20) : bool :=
   end.
 
 Definition C20_ok (t : list ev) : bool := fold_mon step20 fin20 i20 t.
+
+(* ------------------------------------------------------------------ *)
+(** * C05, second conjunct: the call behind a ret_to! / ret_some_to! Ret is not lost
+
+    Once the Ret is resolved its target method call travels through the main queue like any other call; it may
+    wait in the Prep queue of the target; it may be discarded only because the target is terminated (or the whole
+    queue is torn down): after such a discard the termination notification of the target must come before
+    anything else starts.  (The first conjunct, [C05_ok], speaks about the Ret's own handler.) *)
+
+Record s05c := mk05c {
+  y_tgt : list (N * N);          (* call uid -> target actor *)
+  y_ret : list N;                (* uids of the calls kept inside ret_to! / ret_some_to! Rets *)
+  y_phase : list (N * N);        (* actor -> 1 Prep, 2 Ready, 3 Zombie *)
+  y_tear : bool;
+  y_owed : list N }.
+
+Definition i05c : s05c := mk05c [] [] [] false [].
+
+Definition step05c (s : s05c) (e : ev) : option s05c :=
+  let starts := match e with ERun _ _ _ | EMeth _ _ _ | EPrep _ _ _ | ERunRet _ => true | _ => false end in
+  if starts && negb (nil_b (y_owed s)) then None else
+  match e with
+  | ENew _ | EDropBegin => Some (mk05c (y_tgt s) (y_ret s) (y_phase s) true (y_owed s))
+  | ERunBegin _ _ => Some (mk05c (y_tgt s) (y_ret s) (y_phase s) false (y_owed s))
+  | ETarget u a _ => Some (mk05c (nset (y_tgt s) u a) (y_ret s) (y_phase s) (y_tear s) (y_owed s))
+  | ERetTo _ u _ => Some (mk05c (y_tgt s) (u :: y_ret s) (y_phase s) (y_tear s) (y_owed s))
+  | EActor a => Some (mk05c (y_tgt s) (y_ret s) (nset (y_phase s) a 1%N) (y_tear s) (y_owed s))
+  | EReady a => Some (mk05c (y_tgt s) (y_ret s) (nset (y_phase s) a 2%N) (y_tear s) (y_owed s))
+  | ENotify a _ => Some (mk05c (y_tgt s) (y_ret s) (nset (y_phase s) a 3%N) (y_tear s) (nremove a (y_owed s)))
+  | EDrop u (Some _) _ =>
+      if nmem u (y_ret s) then
+        match nget (y_tgt s) u with
+        | Some a =>
+            if y_tear s || N.eqb (phase_of (y_phase s) a) 3 || nmem a (y_owed s) then Some s
+            else Some (mk05c (y_tgt s) (y_ret s) (y_phase s) (y_tear s) (a :: y_owed s))
+        | None => Some s
+        end
+      else Some s
+  | _ => Some s
+  end.
+
+Definition C05_calls_ok (t : list ev) : bool := fold_mon step05c (fun s => nil_b (y_owed s)) i05c t.
